@@ -42,6 +42,7 @@ type Tier struct {
 // Unit functions by name.
 var Units = map[string]func(p *load.Program, r *Roles, t Tier) *UnitResult{
 	"loops": func(p *load.Program, r *Roles, t Tier) *UnitResult { return AnalyzeRetryLoops(p, r) },
+	"store": func(p *load.Program, r *Roles, t Tier) *UnitResult { return AnalyzeStore(p, r, t.Depth) },
 	"flow":  func(p *load.Program, r *Roles, t Tier) *UnitResult { return AnalyzeFlow(p, r, t.Depth) },
 	"run": func(p *load.Program, r *Roles, t Tier) *UnitResult {
 		res := AnalyzeRun(p, r, t.Depth)
@@ -137,6 +138,17 @@ func init() {
 		Floors: []Floor{{"C10.R1@Flow.Prep:return", 1, "prep hands the store through"}, {"C10.R2@*:child-run", 1, "children run on the parent's store"}, {"C10.R3@*:success-return", 1, "last action"}, {"C10.R4@Flow.Post:return", 1, "post returns the action"},
 			{"C10.R5@Run:type-tests", 1, "no special-casing"}, {"C10.R6@NewFlow:base-node", 1, "default budget"}, {"C10.R7@Flow.Run:*", 2, "Flow.Run"}},
 		Assumptions: commonAssumptions})
+	storeExpl := "Every exported method of *SharedStore is explored path-sensitively (callees such as Get inlined) with lock/unlock, field reads, map lookups/updates/deletes/len/range/clear, appends and returns as events."
+	reg(&Prop{ID: "C13", Units: []string{"store"}, Technique: "static analysis: path-sensitive lockset / critical-section typestate over go/ssa",
+		Explanation: storeExpl + " C13 decides a sufficient condition for linearizability and race freedom: on every path of every method, each access to the map field or to the map it holds happens while the store's own mutex is held (write-locked for any mutation), at most one critical section is entered per operation (callees included, so composite getters stay atomic), lock and unlock are balanced on every path with no nested acquisition, no store method is called while the lock is held, and the internal map never escapes (not returned, stored, or passed to anything but pure copy helpers). Merge and Clear therefore perform their whole update inside one write section.",
+		CaseRule:    "an obligation instance is one (abstract path, event) pair in one method; distinct = distinct rule@construct keys",
+		Floors:      []Floor{{"C13.R1@SharedStore.*:access", 9, "guarded accesses in the nine map operations"}, {"C13.R2@SharedStore.*:lock", 9, "one section per operation"}, {"C13.R3@SharedStore.*:return", 20, "balanced on return, every method"}, {"C13.R6@SharedStore.*:classified", 20, "every exported method analysed"}},
+		Assumptions: append(append([]string{}, commonAssumptions...), "sequential correctness of each operation is C14; races on user values stored in the store are outside the property")})
+	reg(&Prop{ID: "C14", Units: []string{"store"}, Technique: "static analysis: per-method map-effect summaries compared with a specification table",
+		Explanation: storeExpl + " C14 decides: the map-effect summary of each direct method equals the map operation it stands for (Set: one store of (key,value); Get: both results of one lookup; Has: the presence bit, not a nil test; Delete: one delete of key; Len: len; Clear: one replace-by-fresh-map or clear; Merge: nil does nothing, otherwise every entry of the argument is copied unconditionally inside the range loop which runs to exhaustion; Keys/GetAll: no mutation, a container made in the call receives every key/entry exactly once per iteration); every store to the map field stores a map made in the call; the internal map never escapes; NewSharedStore starts with a fresh map. By induction over operation sequences the store equals the model map.",
+		CaseRule:    "an obligation instance is one abstract path of one method; distinct = distinct rule@construct keys",
+		Floors:      []Floor{{"C14.R1@SharedStore.*:effect-summary", 20, "effect summaries of all methods"}, {"C14.R2@*", 1, "map field only holds fresh maps"}},
+		Assumptions: append(append([]string{}, commonAssumptions...), "Go's built-in map is the reference; deep aliasing of stored values is outside the property")})
 	reg(&Prop{ID: "C04", Units: []string{"run", "flow"}, Technique: "static analysis: path-sensitive error-provenance (wrap-chain) abstract interpretation over go/ssa",
 		Explanation: lifeExpl + " C04 decides on Run (single and batch paths): nil error iff the path ended in a successful post; every error return that follows a failing callback wraps (fmt.Errorf %w / errors.Join / identity) that callback's own error term, and no further phase callback is invoked after it.",
 		CaseRule:    "an obligation instance is one (abstract path, return or call site) pair; distinct = distinct rule@construct keys",
